@@ -51,11 +51,28 @@ def regex_family(nodes: list[str]) -> list[str]:
     return uniq
 
 
+def glob(p: str, s: str) -> bool:
+    """Documented meaning of a partial name, stated independently of the library's translation: the literal text
+    matched in full; one leading * allows any prefix, one trailing * any suffix."""
+    if p == "*":
+        return True
+    lead = p.startswith("*")
+    trail = p.endswith("*") and len(p) >= 2
+    text = p[(1 if lead else 0) : (len(p) - 1 if trail else len(p))]
+    if lead and trail:
+        return text in s
+    if lead:
+        return s.endswith(text)
+    if trail:
+        return s.startswith(text)
+    return s == text
+
+
 def partial_family(nodes: list[str]) -> list[str]:
     out = []
     for n in nodes:
         last = n.split(".")[-1]
-        out += [n, "*" + last, n + "*", "*" + last + "*", "*." + last]
+        out += [n, "*" + last, n + "*", "*" + last + "*", "*." + last, n + ".*"]
     out += ["*zz_nomatch", "*"]
     seen, uniq = set(), []
     for r in out:
@@ -288,7 +305,9 @@ def work(inst: dict) -> dict:
             rx = convert_partial_match_to_regex(inst["pm"])
             kind = "partial"
             compact_kind, compact_arg = "partial", (inst["pm"],)
-        matched = tuple(n for n in nodes if re.match(rx, n))
+        # expansion: by re.match for a regex; for a partial name by its documented glob meaning (NOT by the library's
+        # own translation, which is what is being checked)
+        matched = tuple(n for n in nodes if (re.match(rx, n) if part == "regex" else glob(inst["pm"], n)))
         other = inst["other"]
         for verb, direction, exc in SHAPES:
             for side in ("subject", "object"):
@@ -312,7 +331,7 @@ def work(inst: dict) -> dict:
 
         pms = tuple(inst["pms"])
         rxs = tuple(convert_partial_match_to_regex(pm) for pm in pms)
-        per_name = [tuple(n for n in nodes if re.match(rx, n)) for rx in rxs]
+        per_name = [tuple(n for n in nodes if glob(pm, n)) for pm in pms]
         union = tuple(n for n in nodes if any(n in m for m in per_name))
         other = inst["other"]
         for verb, direction, exc in SHAPES:
